@@ -37,6 +37,11 @@ pub struct Spoof {
     /// remainder) instead of padding inside it
     #[serde(default)]
     pub first_tail: u16,
+    /// the coalesced remainders (first datagram and follow-ups) are not junk but a run of small,
+    /// well-formed Handshake-typed packets that cannot be authenticated (a peer may coalesce any
+    /// number of packets; every one of them is counted once)
+    #[serde(default)]
+    pub tail_shells: bool,
 }
 
 #[derive(Clone, Debug, Serialize, Deserialize)]
@@ -56,11 +61,12 @@ pub struct Amp {
 pub fn arb_amp() -> impl Strategy<Value = Amp> {
     let g = XferGen { max_faults: 40, aux_ops: 1, rustls_share: 10, max_streams: 2, max_total: 30_000, ..XferGen::default() };
     let spoof = (0u32..3_000_000, prop_oneof![1u16..1200, Just(1199u16), Just(1200u16), 1200u16..=1500], 3u8..40, any::<bool>(), 1u8..4)
-        .prop_map(|(at_us, size, host, hello, copies)| Spoof { at_us, size, host, hello, copies, followups: vec![], dcid_len: None, first_tail: 0 });
-    let spoof = (spoof, prop::collection::vec(prop_oneof![0u16..100, 900u16..1400], 0..4), prop_oneof![3 => Just(None), 1 => (0u8..8).prop_map(Some), 1 => (8u8..=20).prop_map(Some)], prop_oneof![2 => Just(0u16), 1 => 1u16..1100]).prop_map(|(mut s, f, dl, ft)| {
+        .prop_map(|(at_us, size, host, hello, copies)| Spoof { at_us, size, host, hello, copies, followups: vec![], dcid_len: None, first_tail: 0, tail_shells: false });
+    let spoof = (spoof, prop::collection::vec(prop_oneof![0u16..100, 900u16..1400], 0..4), prop_oneof![3 => Just(None), 1 => (0u8..8).prop_map(Some), 1 => (8u8..=20).prop_map(Some)], prop_oneof![2 => Just(0u16), 1 => 1u16..1100], any::<bool>()).prop_map(|(mut s, f, dl, ft, sh)| {
         s.followups = f;
         s.dcid_len = dl;
         s.first_tail = ft;
+        s.tail_shells = sh;
         s
     });
     let garb = (0u32..3_000_000, prop_oneof![1u16..64, 20u16..23, 64u16..1500], 3u8..40).prop_map(|(at_us, size, host)| Garbage { at_us, size, host });
@@ -106,19 +112,15 @@ fn client_hello(scid: &[u8]) -> Vec<u8> {
     m
 }
 
-fn craft_initial(seed: u64, size: usize, hello: bool, dcid_len: Option<u8>, tail: usize) -> Vec<u8> {
-    // the Initial packet itself is padded to size - tail, then `tail` junk bytes follow
+fn craft_initial(seed: u64, size: usize, hello: bool, dcid_len: Option<u8>, tail: usize, shells: bool) -> Vec<u8> {
+    // the Initial packet itself is padded to size - tail, then `tail` bytes of coalesced remainder follow
     let tail = tail.min(size.saturating_sub(100));
     let mut d = craft_initial_pn(seed, size - tail, hello, 0, dcid_len);
-    let mut r = crate::core::mix(seed, 0x7a12);
-    for _ in 0..tail {
-        r = crate::core::mix(r, 1);
-        d.push(r as u8);
-    }
+    push_tail(&mut d, seed, 0x7a12, tail, shells, dcid_len);
     d
 }
 
-fn craft_initial_pn(seed: u64, size: usize, hello: bool, pn: u64, dcid_len: Option<u8>) -> Vec<u8> {
+fn spoof_ids(seed: u64, dcid_len: Option<u8>) -> (Vec<u8>, [u8; 8]) {
     let a = crate::core::mix(seed, 0xd1);
     let b = crate::core::mix(seed, 0xd2);
     let mut dcid = a.to_le_bytes().to_vec();
@@ -127,7 +129,41 @@ fn craft_initial_pn(seed: u64, size: usize, hello: bool, pn: u64, dcid_len: Opti
         dcid.extend_from_slice(&crate::core::mix(seed, 0xd4).to_le_bytes());
         dcid.truncate(n as usize);
     }
-    let scid = crate::core::mix(seed, 0xd3).to_le_bytes();
+    (dcid, crate::core::mix(seed, 0xd3).to_le_bytes())
+}
+
+/// `n` bytes of coalesced remainder: junk, or a run of small Handshake-typed packets protected with a
+/// key the server does not have
+fn push_tail(d: &mut Vec<u8>, seed: u64, salt: u64, n: usize, shells: bool, dcid_len: Option<u8>) {
+    let end = d.len() + n;
+    let mut r = crate::core::mix(seed, salt);
+    if shells {
+        let (dcid, scid) = spoof_ids(seed, dcid_len);
+        let payload = wire::encode_frames(&[wire::Frame::Ping]);
+        let mut pn = 0;
+        loop {
+            r = crate::core::mix(r, 2);
+            let want = 44 + (r % 40) as usize;
+            if d.len() + want + 44 > end {
+                break;
+            }
+            let mut out = Vec::new();
+            wire::build_packet(
+                &wire::BuildPkt { ty: wire::PktType::Handshake, version: 1, dcid: &dcid, scid: &scid, token: &[], pn, pn_len: 1, key_phase: false, payload: &payload, key: r | 1, min_len: want, first_byte_xor: 0 },
+                &mut out,
+            );
+            pn += 1;
+            d.extend_from_slice(&out);
+        }
+    }
+    while d.len() < end {
+        r = crate::core::mix(r, 1);
+        d.push(r as u8);
+    }
+}
+
+fn craft_initial_pn(seed: u64, size: usize, hello: bool, pn: u64, dcid_len: Option<u8>) -> Vec<u8> {
+    let (dcid, scid) = spoof_ids(seed, dcid_len);
     let payload = if hello {
         wire::encode_frames(&[wire::Frame::Crypto { offset: 0, data: client_hello(&scid) }])
     } else {
@@ -165,7 +201,7 @@ pub fn case(a: &Amp) -> CaseOut {
     let mut crafted: Vec<(u64, usize, bool)> = vec![]; // (dgram id, size, hello)
     if sim {
         for (i, s) in a.spoofs.iter().enumerate() {
-            let bytes = craft_initial(crate::core::mix(x.net.seed, i as u64), s.size as usize, s.hello, s.dcid_len, s.first_tail as usize);
+            let bytes = craft_initial(crate::core::mix(x.net.seed, i as u64), s.size as usize, s.hello, s.dcid_len, s.first_tail as usize, s.tail_shells);
             for c in 0..s.copies as u64 {
                 let id = w.inject(s.at_us as u64 + c * 700, server_addr, addr_v6(0x100 + s.host as u16, 7000 + i as u16), bytes.clone());
                 crafted.push((id, bytes.len(), s.hello));
@@ -174,11 +210,7 @@ pub fn case(a: &Amp) -> CaseOut {
             if s.hello && s.size >= 1200 {
                 for (j, tail) in s.followups.iter().enumerate() {
                     let mut d = craft_initial_pn(crate::core::mix(x.net.seed, i as u64), 0, false, 1 + j as u64, s.dcid_len);
-                    let mut r = crate::core::mix(x.net.seed, 0x7a11 + j as u64);
-                    for _ in 0..*tail {
-                        r = crate::core::mix(r, 1);
-                        d.push(r as u8);
-                    }
+                    push_tail(&mut d, crate::core::mix(x.net.seed, i as u64), 0x7a11 + j as u64, *tail as usize, s.tail_shells, s.dcid_len);
                     w.inject(s.at_us as u64 + 20_000 + 30_000 * j as u64, server_addr, addr_v6(0x100 + s.host as u16, 7000 + i as u16), d);
                 }
             }
